@@ -37,7 +37,7 @@ TrQuery ==
   \* unspecified, but a chunk held by the memory shard or by a keyed collection must be found whatever the unkeyed
   \* collection says first
   /\ (UniqueP0(R.c) => (R.found <=> Query(R.c).found))
-  /\ (~Query(R.c).found => ~R.found)
+  /\ (R.found => Held(R.c))
   /\ (MustFind(R.c) => R.found)
   /\ UNCHANGED vars
 
